@@ -396,6 +396,29 @@ func runC06(c *core.Ctx) {
 		}
 	}
 
+	// (3d) a long diary kept in order (400 and 1100 consecutive days) with a few entries appended out of order at the
+	// bottom (a forgotten meal, a correction): what a long ordered run suggests about the rest of the file is not a fact
+	for di, ndays := range []int{400, 1100} {
+		r := c.Rng("diary", di)
+		start := gen.Date{Y: 2018, M: 1, D: 1}
+		var log gen.Log
+		for k := 0; k < ndays; k++ {
+			log = append(log, gen.Day{Date: start.AddDays(k), Ents: []gen.Ent{{Name: []string{"a/b", "water", "tea", "d"}[k%4], Val: gen.Half(1 + k%7)}}})
+		}
+		late := []int{40, 200, ndays - 30, 41}
+		for _, k := range late {
+			log = append(log, gen.Day{Date: start.AddDays(k), Ents: []gen.Ent{{Name: "kcal", Val: gen.Half(9)}}})
+		}
+		for k := 0; k < c.N(5, 20); k++ {
+			b, e := start.AddDays(r.Intn(60)), start.AddDays(30+r.Intn(250))
+			it := item{log: log, layout: layoutDefault, b: &b, e: &e, bs: mk(b, layoutDefault), es: mk(e, layoutDefault), today: start.AddDays(ndays + 5), cmd: c06Cmds[r.Intn(len(c06Cmds))], label: "long ordered diary with late entries", zones: []string{c06Zones[k%4]}}
+			if k%3 == 0 {
+				it.b, it.bs = nil, nil
+			}
+			items = append(items, it)
+		}
+	}
+
 	// (4) random logs and periods
 	for i := 0; i < c.N(150, 3000); i++ {
 		r := c.Rng("random", i)
